@@ -8,4 +8,12 @@ UNITS = [
        assumed=["ogg_sync_pageseek (libogg, assumed, body-ful stub): page length <= 65307, or a negative skip count, or 0; it never consumes more bytes than the data source holds, and the data source is shorter than 2^61 bytes (no 64-bit wrap-around of the file position)",
                 "termination of the search depends on the data source ending (not claimed)"],
        note="forward page search: returns a page offset or OV_FALSE / OV_EOF / OV_EREAD; the recorded position only moves forward and ends right behind the page found; a bounded search accepts only a page that starts inside the window; boundary 0 never asks the data source; EOF / read failure only after the data source was asked"),
+  Unit("vf_get_prev_page", ["C03", "C12", "C08"], "lib/vorbisfile.c", enforce="_get_prev_page", replace=["_get_next_page", "_seek_helper", "verif_seek_cb", "ogg_sync_reset"], loops="vf_prev.loops",
+       harness="h_vf_page.c", entry="h_vf_get_prev_page", defines=["H_PREV", "VERIF_PREV"], reach=4,
+       assumed=["_get_next_page and _seek_helper by their contracts (proved in units vf_get_next_page, vf_seek_helper)", "stream positions below 2^61"],
+       note="backward page search: returns the offset of a page that starts before `begin`, or OV_EREAD / OV_EFAULT / OV_EBADLINK; TERMINATES whatever the callbacks do (decreases clause on the chunk-back loop: a search from offset 0 that finds nothing gives up; the forward scan inside a chunk advances or stops) - a genuine hang was found and fixed"),
+  Unit("vf_get_prev_page_serial", ["C03", "C12", "C09"], "lib/vorbisfile.c", enforce="_get_prev_page_serial", replace=["_get_next_page", "_seek_helper", "verif_seek_cb", "ogg_sync_reset", "ogg_page_serialno", "ogg_page_granulepos", "_lookup_serialno"], loops="vf_prev.loops",
+       harness="h_vf_page.c", entry="h_vf_get_prev_page_serial", defines=["H_PREVS", "VERIF_PREV"], reach=3,
+       assumed=["_get_next_page and _seek_helper by their contracts (proved in units vf_get_next_page, vf_seek_helper); _lookup_serialno by contract (0/1)", "stream positions below 2^61"],
+       note="backward page search preferring a serial number (used to find the end of each link at open): same return contract and TERMINATION for every callback behaviour - the give-up test after a fruitless search from offset 0 is an obligation (it tested the wrong variable: genuine hang at open, found and fixed)"),
 ]
